@@ -139,6 +139,9 @@ func genC15Request(r *Rng) c15req {
 			rq.class, io.BodyKind, io.Body = "empty", "raw", ""
 		}
 	}
+	if rq.class == "empty" && r.P(0.5) {
+		io.NoBody = true
+	}
 	io.CloseErr = r.P(0.1)
 	io.EOFData = r.P(0.3)
 	rq.io = io
@@ -377,6 +380,10 @@ func runC15(x *X) *Violation {
 	}
 	if io.TruncAt > 0 && io.TruncAt-1 == len(body) && io.Fault == "eof" {
 		delivered = body
+	}
+	if io.NoBody {
+		// http.NoBody is not the scripted reader: it is empty and never fails
+		delivered, faultErr = "", false
 	}
 	class := "valid"
 	for _, c := range []string{"empty_obj", "non_object", "malformed", "empty"} {
